@@ -47,6 +47,7 @@ type caseT struct {
 	History []imgkit.Hist    `json:"history,omitempty"`
 	NoCfg   bool             `json:"no_config,omitempty"`
 	Req     string           `json:"requirer"` // "all", "none", or a path
+	U       []string         `json:"universe,omitempty"`
 }
 
 func styled(es []imgkit.Entry, style string) []imgkit.Entry {
@@ -428,8 +429,8 @@ func compareView(fsys scalibrfs.FS, m imgkit.Model, universe []string, requiredO
 			}
 			continue
 		}
-		if !sort.StringsAreSorted(got) {
-			// fs.ReadDirFS demands sorted output
+		if !sort.SliceIsSorted(ents, func(i, j int) bool { return ents[i].Name() < ents[j].Name() }) {
+			// fs.ReadDirFS demands output sorted by file name
 			return &mismatch{"listing-not-sorted", fmt.Sprintf("ReadDir(%q) = %v", name, got)}
 		}
 		if strings.Join(got, " ") != strings.Join(want, " ") {
@@ -765,7 +766,11 @@ func main() {
 		if json.Unmarshal(b, &doc) != nil {
 			os.Exit(3)
 		}
-		k, d := runCase(&doc.Replay, []string{"a", "a/b", "a/b/c", "a/d", "e", "e/f"})
+		ru := []string{"a", "a/b", "a/b/c", "a/d", "e", "e/f"}
+		if len(doc.Replay.U) > 0 {
+			ru = doc.Replay.U
+		}
+		k, d := runCase(&doc.Replay, ru)
 		fmt.Printf("replay %s style=%s req=%s: key=%q %s\n", layerStr(doc.Replay.Layers), doc.Replay.Style, doc.Replay.Req, k, d)
 		os.RemoveAll(base)
 		if k != "" {
@@ -903,6 +908,54 @@ func main() {
 			}
 		}
 	}
+	// Prefix-sibling family: names that are string prefixes of one another ("a", "ab", "a.b").
+	// A whiteout or an opaque marker on "a" must not touch "ab" or "a.b"; any implementation that
+	// compares paths as strings rather than component-wise differs from the overlay model here.
+	{
+		pu := []string{"a", "a/x", "ab", "ab/x", "a.b"}
+		var po []imgkit.Entry
+		for _, p := range pu {
+			po = append(po, imgkit.File(p, "1"), imgkit.Entry{Name: p, Kind: "dir", Mode: 0o750}, imgkit.Whiteout(p), imgkit.Opaque(p))
+		}
+		psets := layerSets(po, ev.Pick(r, 2, 3))
+		var p1 [][]imgkit.Entry
+		for _, s := range psets {
+			if len(s) == 1 {
+				p1 = append(p1, s)
+			}
+		}
+		upper := ev.Pick(r, p1, layerSets(po, 2))
+		pd := r.ParallelFor(len(psets)*len(upper), func(i int) {
+			ls := [][]imgkit.Entry{psets[i/len(upper)], upper[i%len(upper)]}
+			for _, rq := range []string{"all", "ab/x"} {
+				c := &caseT{Layers: ls, Style: "plain", Req: rq, U: pu}
+				if !anchored(c.Layers) {
+					continue
+				}
+				k, d := runCase(c, pu)
+				r.Evals.Add(1)
+				if hidden(ls) {
+					r.Nontrivial.Add(1)
+				}
+				if k != "" {
+					r.Violation(k, fmt.Sprintf("layers %s req=%s: %s", layerStr(c.Layers), c.Req, d), c)
+				}
+			}
+			// a third, empty-ish layer on top: the view after the one that carried the marker
+			c := &caseT{Layers: append(append([][]imgkit.Entry{}, ls...), []imgkit.Entry{imgkit.File("zz", "1")}), Style: "plain", Req: "all", U: pu}
+			if anchored(c.Layers) {
+				k, d := runCase(c, pu)
+				r.Evals.Add(1)
+				if k != "" {
+					r.Violation(k, fmt.Sprintf("layers %s: %s", layerStr(c.Layers), d), c)
+				}
+			}
+		})
+		if pd < len(psets)*len(upper) {
+			complete = false
+		}
+		r.Set("prefix_sibling_images", pd*3)
+	}
 	if r.Thorough() && !r.Expired() {
 		var s1 [][]imgkit.Entry
 		for _, s := range sets {
@@ -927,5 +980,5 @@ func main() {
 	}
 	os.RemoveAll(base)
 	r.Assume("imgkit.Model.Apply (~60 lines) is the OCI image-spec change-set application: whiteouts act on lower layers only, then the layer's entries are added")
-	r.Finish(fmt.Sprintf("universe %v; entry kinds: file(2 contents/modes), dir, whiteout, opaque marker per path + 2 symlinks (%d options); layers = all well-formed sets of <=%d entries (%d); all 1- and 2-layer images, every entry order per layer (plain names), canonical order with './' and '/' name styles; for images where an upper layer touches a lower one: 5 history arrangements incl. empty layers at every position and a short history, missing config, requirer none/each path; deep-pruning family (file 4 levels down x requirers); squashed on-disk unpack AND a FromTarball load of the saved tarball for all pairs of single-entry layers; thorough adds all 3-layer images (<=%d,<=%d,1). Each view: Stat/Open+Read on every universe path + 2 absent paths, ReadDir of every directory, WalkDir. non-trivial = an upper-layer entry overlaps a lower-layer entry", universe, len(opts), maxEntries, len(sets), maxEntries, maxEntries), complete)
+	r.Finish(fmt.Sprintf("universe %v; entry kinds: file(2 contents/modes), dir, whiteout, opaque marker per path + 2 symlinks (%d options); layers = all well-formed sets of <=%d entries (%d); all 1- and 2-layer images, every entry order per layer (plain names), canonical order with './' and '/' name styles; for images where an upper layer touches a lower one: 5 history arrangements incl. empty layers at every position and a short history, missing config, requirer none/each path; deep-pruning family (file 4 levels down x requirers); prefix-sibling family (names a, a/x, ab, ab/x, a.b; lower layer <=2 (thorough 3) entries x upper layer 1 (thorough <=2) entry, + a third layer on top); squashed on-disk unpack AND a FromTarball load of the saved tarball for all pairs of single-entry layers; thorough adds all 3-layer images (<=%d,<=%d,1). Each view: Stat/Open+Read on every universe path + 2 absent paths, ReadDir of every directory, WalkDir. non-trivial = an upper-layer entry overlaps a lower-layer entry", universe, len(opts), maxEntries, len(sets), maxEntries, maxEntries), complete)
 }
